@@ -480,8 +480,8 @@ def oracle(R, graph, case, io_, closures):
     if new:
         yield ("frame", None, "new files %s" % new[:3])
     # safety: with the check on and force off, no survivor needs a removed product
-    if check and not force and not unsetup_any and (ask is None or (name, version) in gone):
-        # (with -i the user may keep the requested product and say yes to one of its dependencies: his explicit choice)
+    if check and not force and not unsetup_any:
+        # (D74, repaired: with -i the user could keep the requested product and say yes to one of its dependencies)
         for key in decl_a:
             l2, _ = closures((key[0], key[1], True))
             bad = [(t[0], t[1]) for t in l2 if (t[0], t[1]) in gone]
